@@ -66,6 +66,7 @@ type caseT struct {
 	Overwrite  bool
 	Absent     bool // uninstall: no directory of that name exists (the call must fail and change nothing)
 	LinkOut    bool // uninstall: <root>/<name> is a symbolic link to a directory outside the plugin root (only the link may go)
+	Unreadable bool // list: the process (an unprivileged user) may not read the plugin root, which holds real plugin directories
 	LinkedRoot bool // list: the plugin root itself is reached through a symbolic link (libexec on another volume, a dotfile manager)
 }
 
@@ -143,7 +144,7 @@ func main() {
 				cases = append(cases, caseT{Op: "install", Name: fn, Depth: depth, Source: "file", Overwrite: ow}, caseT{Op: "install", Name: fn, Depth: depth, Source: "dir", Overwrite: ow})
 			}
 		}
-		cases = append(cases, caseT{Op: "list", Depth: depth}, caseT{Op: "list", Depth: depth, LinkedRoot: true})
+		cases = append(cases, caseT{Op: "list", Depth: depth}, caseT{Op: "list", Depth: depth, LinkedRoot: true}, caseT{Op: "list", Depth: depth, Unreadable: true})
 		for _, ow := range []bool{false, true} {
 			cases = append(cases, caseT{Op: "install", Name: "linkedplug", Depth: depth, Source: "file", Overwrite: ow, LinkOut: true}, caseT{Op: "install", Name: "linkedplug", Depth: depth, Source: "dir", Overwrite: ow, LinkOut: true})
 		}
@@ -333,6 +334,24 @@ func main() {
 				os.Rename(J(root), J(root+"-real"))
 				os.Symlink(filepath.Base(root)+"-real", J(root))
 			}
+			if c.Unreadable {
+				os.Chmod(J(root), 0o700) // (owned by root; the jailed process runs as nobody)
+			}
+		}
+		// executables of the same FILE name wait on the search path of the process (a system-wide copy of a plugin): a plugin
+		// is looked up under the plugin root and nowhere else, so none of them is ever run
+		if c.Op == "get" || c.Op == "verify" || c.Op == "verify-from-config" {
+			for _, d := range []string{"/usr/local/bin", "/bin"} {
+				for _, n := range []string{c.Name, strings.TrimSpace(c.Name), path.Base(c.Name)} {
+					if n == "" || n == "good" || n == "other" || strings.ContainsAny(n, "/\x00") || len(n) > 100 {
+						continue
+					}
+					if _, err := os.Lstat(J(filepath.Join(d, "notation-"+n))); err != nil {
+						link(J(filepath.Join(d, "notation-"+n)))
+						os.WriteFile(J(filepath.Join(d, "notation-"+n))+".name", []byte(n), 0o644)
+					}
+				}
+			}
 		}
 		specBytes, _ := json.Marshal(sp)
 		os.WriteFile(J("/spec.json"), specBytes, 0o644)
@@ -342,6 +361,10 @@ func main() {
 			cmd := exec.Command("/w", "jail", "/spec.json")
 			cmd.SysProcAttr = &syscall.SysProcAttr{Chroot: jail}
 			cmd.Dir = "/"
+			cmd.Env = append(os.Environ(), "PATH=/usr/local/bin:/bin")
+			if c.Unreadable {
+				cmd.SysProcAttr.Credential = &syscall.Credential{Uid: 65534, Gid: 65534}
+			}
 			done := make(chan struct{})
 			var out []byte
 			var runErr error
@@ -398,6 +421,12 @@ func main() {
 			r.Violation(sig("panic"), "panic inside the plugin manager: "+strings.SplitN(res.Panic, "\n", 2)[0], wit)
 		}
 		switch {
+		case c.Op == "list" && c.Unreadable:
+			// the root exists, holds real plugin directories and cannot be read: "there are no plugins" is not what is there
+			r.Event("list-cases-over-an-unreadable-root")
+			if res.OK {
+				r.Violation(sig("list"), fmt.Sprintf("List over a plugin root the process may not read returned %v and no error; the root holds 8 real plugin directories", res.Names), wit)
+			}
 		case c.Op == "list":
 			want := []string{".h", "azure+kv", "b.c", "good", "my plugin", "other", "pl\u00fcgin", "signer@v2"}
 			sort.Strings(want)
